@@ -247,6 +247,17 @@ def _a1():
     for on, f in bops.items():
         for cn, (sa, sb) in combos.items():
             _reg("A1", f"bc.{on}/{cn}", functools.partial(P, f, [(sa, F32), (sb, F32)]), tier="quick" if on in ("add", "pow", "where", "max", "div", "clip") else "thorough")
+    # mixed integer/float operands: jnp promotes with JAX's lattice (int32 x float32 -> float32),
+    # a lowering that skips the promotion emits an ill-typed node, one that uses NumPy's lattice
+    # computes in float64
+    mdt = {"add": jnp.add, "sub": jnp.subtract, "mul": jnp.multiply, "div": jnp.divide, "max": jnp.maximum, "min": jnp.minimum, "pow": jnp.power,
+           "eq": jnp.equal, "ne": jnp.not_equal, "lt": jnp.less, "le": jnp.less_equal, "gt": jnp.greater, "ge": jnp.greater_equal,
+           "where": lambda a, b: jnp.where(b > 2, a, b), "atan2": jnp.arctan2, "fmod": jnp.fmod, "rem": jnp.remainder, "hypot": jnp.hypot,
+           "copysign": jnp.copysign, "outer": jnp.outer, "dot": jnp.dot, "matmul": jnp.matmul, "concat": lambda a, b: jnp.concatenate([a, b]),
+           "op_add": lambda a, b: a + b, "op_mul": lambda a, b: a * b, "op_lt": lambda a, b: a < b, "lax_max": lambda a, b: jnp.maximum(a.astype(b.dtype), b)}
+    for on, f in mdt.items():
+        _reg("A1", f"mixdt.{on}/i32_f32", functools.partial(P, f, [((3,), I32), ((3,), F32)]))
+        _reg("A1", f"mixdt.{on}/f32_i32", functools.partial(P, f, [((3,), F32), ((3,), I32)]), tier="thorough")
     # python-scalar operands on either side
     for on, f in {"rpow": lambda x: 0.5 ** x, "pow2": lambda x: x ** 2.0, "rsub": lambda x: 1.0 - x, "rdiv": lambda x: 2.0 / x, "rmax": lambda x: jnp.maximum(0.25, x), "rwhere": lambda x: jnp.where(x > 0, 1.0, x)}.items():
         for cn, sh in {"B3": ("B", 3), "23": (2, 3)}.items():
